@@ -53,7 +53,7 @@ def run(tier, seed):
                 ("MC_Masks", MC % ("nonstatio", 64 if q else 1), "MC_Masks_nonstatio"),
                 ("MC_Masks", MC % ("sysode", 16 if q else 2), "MC_Masks_sysode"), ("MC_Masks", MC % ("syspde", 2048 if q else 128), "MC_Masks_syspde")]
     return _func.run(
-        "C06", tier, seed, emitters=emitters, extras=extras, prepare=prepare, sig=sig, chunk=3000, exhaustive=not q, thorough_reps=2,
+        "C06", tier, seed, emitters=emitters, extras=extras, prepare=prepare, sig=sig, chunk=3000, exhaustive=not q, thorough_reps=1,
         rule="TLC enumerates EVERY assignment of {selected, not selected} to every (loss term, parameter group) pair: 512 (ODE), 4096 "
              "(stationary), 32768 (non-stationary) masks (quick: all ODE masks, a stride-selected covering subset of the others); for each "
              "mask the gradient of the total loss w.r.t. the network parameters and each equation parameter must equal the exact sum, over "
